@@ -58,6 +58,8 @@ pub enum RTy {
     OptFromArg(usize),
     /// `Option<D>`: the dependency's type parameter in the return type
     DepsOpt,
+    /// `-> &str` (elided) where the only input lifetime is the *named* one of argument l (no_deps / by-value deps only)
+    FromNamedArgElided(usize),
 }
 
 #[derive(Clone, Debug)]
@@ -158,7 +160,7 @@ impl Sig {
                 _ => " -> &str".into(),
             },
             RTy::FromArg(l) => format!(" -> &{} str", LT[*l]),
-            RTy::FromElidedArg => " -> &str".into(),
+            RTy::FromElidedArg | RTy::FromNamedArgElided(_) => " -> &str".into(),
             RTy::Gen => " -> T".into(),
             RTy::OptFromArg(l) => format!(" -> Option<&{} str>", LT[*l]),
             RTy::DepsOpt => " -> Option<D>".into(),
@@ -358,7 +360,7 @@ impl Sig {
             RTy::I32 => "i32".into(),
             RTy::Owned => "String".into(),
             RTy::FromDeps => format!("&{deps_lt} str"),
-            RTy::FromArg(l) => format!("&{} str", LT[*l]),
+            RTy::FromArg(l) | RTy::FromNamedArgElided(l) => format!("&{} str", LT[*l]),
             RTy::FromElidedArg => {
                 let i = self.params.iter().position(|p| *p == PTy::RefElided).unwrap_or(0);
                 format!("&{} str", elided_as(i))
@@ -606,6 +608,11 @@ pub fn gen_sig(t: &mut Tape, excl: &Excl) -> Sig {
         rets.push(RTy::FromElidedArg);
         rets.push(RTy::FromElidedArg);
     }
+    // ... or the single input lifetime is written out and only the output elides it
+    if !deps_has_ref && n_elided == 0 && n_lt_inputs == 1 && named_ref_args.len() == 1 && !excl.no_deps_elided_return {
+        rets.push(RTy::FromNamedArgElided(named_ref_args[0]));
+        rets.push(RTy::FromNamedArgElided(named_ref_args[0]));
+    }
     let mut has_gen = has_gen;
     if has_gen || t.chance(1, 8) {
         rets.push(RTy::Gen);
@@ -756,7 +763,10 @@ pub fn gen_case(t: &mut Tape, excl: &Excl) -> Case {
         classes.push("async");
         score += 1;
     }
-    if matches!(sig.ret, RTy::FromDeps | RTy::FromArg(_) | RTy::FromElidedArg | RTy::OptFromArg(_)) {
+    if matches!(sig.ret, RTy::FromNamedArgElided(_)) {
+        classes.push("elided_output_of_the_single_named_input_lifetime");
+    }
+    if matches!(sig.ret, RTy::FromDeps | RTy::FromArg(_) | RTy::FromElidedArg | RTy::OptFromArg(_) | RTy::FromNamedArgElided(_)) {
         classes.push("borrowed_return");
         score += 1;
     }
